@@ -113,6 +113,24 @@ where
 	}
 }
 
+/// Returns whether the UTF-8-encoded YAML stream produced by the reader
+/// contains at least one document. This only parses up to the start of the
+/// first document; a stream that fails to parse before then is reported as
+/// having one, so that its consumer surfaces the error.
+pub(super) fn has_document<R>(reader: R) -> bool
+where
+	R: Read,
+{
+	let mut parser = Parser::new(reader);
+	loop {
+		match parser.next_event().map(|event| event.event_type()) {
+			Ok(YAML_STREAM_END_EVENT) => return false,
+			Ok(YAML_DOCUMENT_START_EVENT) | Err(_) => return true,
+			Ok(_) => {}
+		}
+	}
+}
+
 /// A UTF-8 encoded YAML document.
 pub(super) struct Document {
 	content: String,
